@@ -3,6 +3,8 @@ import itertools
 import json
 import math
 import os
+import sys
+import time
 from fractions import Fraction as F
 
 from common import (CASES_HEADER, VERIF, Check, clist, coq_eval_parallel, cz, parse_coq_list,
@@ -196,10 +198,7 @@ def gen_gate(rng, d, kinds):
         if k == "SQ2":
             return {"g": "SQ2", "modes": [a, a + 1], "t": rng.choice(TS[:12]), "e": rng.choice(PYTH)}
         if k == "XX":
-            m = [a, a + 1]
-            if rng.random() < 0.3:
-                m = [a + 1, a]
-            return {"g": "XX", "modes": m, "t": rng.choice(TS[:12])}
+            return {"g": "XX", "modes": [a, a + 1], "t": rng.choice(TS[:12])}
         if k == "CP":
             b = rng.randrange(d)
             c = rng.choice([x for x in range(d) if x != b])
@@ -258,10 +257,14 @@ def describe(p):
 
 def gen_programs(rng, thorough):
     progs = []
-    per = 5 if thorough else 2
+    count = 0
     for d in range(1, 6):
         for occ in itertools.product((0, 1), repeat=d):
+            per = 5 if thorough else (2 if d <= 3 else 1)
             for j in range(per):
+                count += 1
+                if per == 1:
+                    j = count % 2
                 if j % 2 == 0:
                     kinds, label = ["I", "BS", "PS", "BS"], "passive"
                 else:
@@ -305,8 +308,17 @@ def corpus_program(c):
 
 
 # ----------------------------------------------------------------------------- the check
+def _t(chk, what):
+    now = time.time()
+    if os.environ.get("C17_DEBUG"):
+        sys.stderr.write("[c17] %-28s %6.1fs\n" % (what, now - chk._last))
+    chk._last = now
+
+
 def run(chk: Check):
+    chk._last = time.time()
     chk.proofs()
+    _t(chk, "proofs")
     T = chk.thorough
     rng = chk.rng
     corr_broken = []
@@ -315,44 +327,61 @@ def run(chk: Check):
     rep_cases = []
     dmax_rep = 6 if T else 5
     for d in range(1, dmax_rep + 1):
-        for rep_i in range(3 if T else 2):
+        for rep_i in range(3 if T else 1):
             U = rand_unitary(rng, d, rich=(rep_i != 1))
-            cuts = sorted({0, 1, 2, 3, d, d + 1, d + 2}) if rep_i == 0 else [d + 1]
+            if rep_i == 0 and (T or d == 3):
+                cuts = sorted({0, 1, 2, 3, d, d + 1, d + 2})
+            else:
+                cuts = [d + 1]
             for c in cuts:
                 rep_cases.append({"d": d, "cutoff": c, "Ux": U})
     # a non-unitary matrix with distinct small-integer entries: any index slip changes a minor
-    for d in (3, 4, 5):
+    for d in ((3, 4, 5) if T else (3, 4)):
         U = [[(F(3 * i + 7 * j + i * j * j + 1), F((i + 2) * (j + 1) % 5 - 2)) for j in range(d)] for i in range(d)]
         rep_cases.append({"d": d, "cutoff": d + 1, "Ux": U})
 
     tab_cases = []
-    for d in range(2, (7 if T else 6) + 1):
+    for d in range(2, (7 if T else 5) + 1):
         for a in range(d):
             for b in range(d):
                 if a != b:
-                    for c in ([d + 1, d, 2, 1] if (T or abs(a - b) == 1) else [d + 1]):
+                    if T:
+                        cuts = [d + 1, d, 2, 1]
+                    else:
+                        cuts = [d + 1, 2] if b == a + 1 else [d + 1]
+                    for c in cuts:
                         tab_cases.append({"d": d, "cutoff": c, "modes": [a, b]})
     il_cases = []
     for d in range(1, (6 if T else 5) + 1):
         for k in range(1, d + 1):
             for modes in consecutive_runs(d, k):
-                for c in sorted({d + 1, max(1, d - 1), 2}):
+                for c in (sorted({d + 1, max(1, d - 1), 2}) if (T or d <= 3) else [d + 1]):
                     il_cases.append({"d": d, "cutoff": c, "modes": list(modes)})
 
     programs = [corpus_program(c) for c in load_corpus()] + gen_programs(rng, T)
 
+    # outside the property's quantifier (recorded, never a violation): Ising-XX on descending or
+    # non-adjacent modes
+    probes = [
+        {"d": 2, "occ": [1, 1], "gates": [{"g": "XX", "modes": [1, 0], "t": F(1, 2)}], "label": "probe"},
+        {"d": 3, "occ": [1, 0, 0], "gates": [{"g": "XX", "modes": [2, 1], "t": F(1, 3)}], "label": "probe"},
+        {"d": 3, "occ": [1, 1, 0], "gates": [{"g": "XX", "modes": [0, 2], "t": F(1, 2)}], "label": "probe"},
+    ]
     req = {
+        "probes": [{"d": p["d"], "occ": p["occ"], "gates": [gate_request(g) for g in p["gates"]], "gaussian": True} for p in probes],
         "rep": [{"d": r["d"], "cutoff": r["cutoff"], "U": tofloat(r["Ux"])} for r in rep_cases],
         "tables": tab_cases,
         "ilist": il_cases,
         "programs": [{"d": p["d"], "occ": p["occ"], "gates": [gate_request(g) for g in p["gates"]],
                       "gaussian": p["label"] != "fock-only"} for p in programs],
     }
+    _t(chk, "generate")
     impl = run_impl("c17_impl.py", req, timeout=3000)
+    _t(chk, "implementation")
 
     # ---------------- correspondence 1: representation (both variants) vs model and exact minors
     bodies, groups = [], []
-    chunk = 4
+    chunk = 4 if T else 6
     for i in range(0, len(rep_cases), chunk):
         items = []
         for r, o in zip(rep_cases[i:i + chunk], impl["rep"][i:i + chunk]):
@@ -375,6 +404,7 @@ Eval vm_compute in mismatches ok cases.
 """ % ";\n".join(items))
         groups.append(list(range(i, min(i + chunk, len(rep_cases)))))
     outs = coq_eval_parallel("c17_rep", bodies, jobs=4)
+    _t(chk, "coq rep (%d files)" % len(bodies))
     for grp, o in zip(groups, outs):
         for k in parse_coq_list(o)[0]:
             r = rep_cases[grp[k]]
@@ -413,6 +443,7 @@ Eval vm_compute in mismatches ok cases.
 """ % ";\n".join(items))
         groups.append(i)
     outs = coq_eval_parallel("c17_tab", bodies, jobs=4)
+    _t(chk, "coq tables (%d files)" % len(bodies))
     for bi, (g0, o) in enumerate(zip(groups, outs)):
         for k in parse_coq_list(o)[0]:
             if bi < nt:
@@ -426,7 +457,7 @@ Eval vm_compute in mismatches ok cases.
 
     # ---------------- correspondence 3: programs, Fock state vector vs model and exact minors
     bodies, groups = [], []
-    chunk = 8
+    chunk = 8 if T else 20
     runnable = [i for i, o in enumerate(impl["programs"]) if "state" in o]
     for i in range(0, len(runnable), chunk):
         ids = runnable[i:i + chunk]
@@ -455,6 +486,7 @@ Eval vm_compute in mismatches ok cases.
 """ % ";\n".join(items))
         groups.append(ids)
     outs = coq_eval_parallel("c17_prog", bodies, jobs=4)
+    _t(chk, "coq programs (%d files)" % len(bodies))
     for ids, o in zip(groups, outs):
         for k in parse_coq_list(o)[0]:
             corr_broken.append("program: Fock state vector model != implementation (or model norm != 1) at %s" % json.dumps(describe(programs[ids[k]])))
@@ -579,6 +611,7 @@ Eval vm_compute in mismatches ok cases.
         mean_f = [sum(pr * k[m] for k, pr in zip(keys, o["probs"])) for m in range(d)]
         if max(abs(x - y) for x, y in zip(mean_f, o["gmean"])) > 1e-8:
             chk.violation("C17:mean_particle_numbers:fock-vs-gaussian:%s" % kinds, "mean occupation differs", {"program": describe(p), "fock": mean_f, "gaussian": o["gmean"]})
+    _t(chk, "search")
     chk.stream("direct statement on the implementation: minors, index tables, exclusion, normalisation, parity/number conservation, exact |minor|^2 for passive programs (search)",
                neval, neval // 2, kind="search")
     chk.stream("differential test (no theorem): covariance matrix, occupation probabilities and mean occupations of fermionic PureFockSimulator vs GaussianSimulator",
@@ -591,6 +624,12 @@ Eval vm_compute in mismatches ok cases.
         "numba compiles the Python source it is given (cache keyed by the hash of the repository sources)",
         "float64 results are compared with exact Gaussian-rational model values at relative tolerance 1e-9",
     ]
+    for p, o in zip(probes, impl.get("probes", [])):
+        if "cov" in o and "gcov" in o:
+            n2 = 2 * p["d"]
+            err = max(abs(o["cov"][i][j] - o["gcov"][i][j]) for i in range(n2) for j in range(n2))
+            chk.notes.append("out-of-scope probe (not counted): IsingXX on modes %s, input %s: max |cov_fock - cov_gaussian| = %.3g"
+                             % (p["gates"][0]["modes"], p["occ"], err))
     chk.notes.append("Ising-XX on non-adjacent modes (outside the property's quantifier: 'consecutive modes') is not generated; the two simulators are known to differ there (Fock side omits the Jordan-Wigner string).")
     chk.finish(
         rule="rep: matrices with d>=3 and cutoff>=3; tables: d>=3; programs: distinct programs with d>=2 and >=2 gates; differential: programs containing an active gate",
